@@ -49,7 +49,9 @@ def mc_cov(stats, maxes, flags, tier):
 
 def _hash_runs(n):
     return [dict(h='mc_hash', label='hash-%s-%dkeys' % (m, n), args=['--mode', m, '--nkeys', str(n)])
-            for m in ('cs', 'nocase', 'bin')]
+            for m in ('cs', 'nocase', 'bin')] + [
+        # binary keys longer than 32 bytes; non-letters differing in bit 5 in a case-insensitive table (each pair searched into one bucket)
+        dict(h='mc_hash', label='hash-%s' % m, args=['--mode', m, '--nkeys', '7']) for m in ('binlong', 'nocasepunct')]
 
 
 def ex_cov(stats, maxes, flags, tier):
@@ -380,11 +382,11 @@ def _c07_runs(tier):
 
 def _c10_runs(tier):
     r = []
-    lens = dict(jsgf=3, fsg=3, dict=3, fdict=3, json=3, cfgset=3, align=3, addword=3, cmn=3, fsgdec=3, jsgfdec=3)
-    shards = dict(jsgf=4, fsg=2, dict=2, fdict=2)
+    lens = dict(jsgf=3, fsg=3, dict=3, fdict=3, json=3, cfgset=3, align=3, addword=3, cmn=3, fsgdec=3, jsgfdec=3, jsgfimp=3)
+    shards = dict(jsgf=4, fsg=2, dict=2, fdict=2, jsgfimp=4)
     if tier == 'thorough':
-        lens = dict(jsgf=4, fsg=4, dict=4, fdict=4, json=4, cfgset=4, align=4, addword=4, cmn=4, fsgdec=4, jsgfdec=4)
-        shards = dict(jsgf=16, fsg=8, dict=8, fdict=8, json=4, fsgdec=4, jsgfdec=4, addword=2, align=2, cfgset=4, cmn=2)
+        lens = dict(jsgf=4, fsg=4, dict=4, fdict=4, json=4, cfgset=4, align=4, addword=4, cmn=4, fsgdec=4, jsgfdec=4, jsgfimp=4)
+        shards = dict(jsgf=16, fsg=8, dict=8, fdict=8, json=4, fsgdec=4, jsgfdec=4, addword=2, align=2, cfgset=4, cmn=2, jsgfimp=8)
     for f, l in lens.items():
         n = shards.get(f, 1)
         for i in range(n):
@@ -598,7 +600,7 @@ CHECKS = {
         runs={'quick': _c10_runs('quick'), 'thorough': _c10_runs('thorough')},
         budget_s={'quick': 600, 'thorough': 5400},
         coverage=ex_cov,
-        rule='11 entry points (jsgf_parse_string+build, fsg_model_read_s3file, dict_init_s3file main/filler, config_parse_json, config_set_str, '
+        rule='12 entry points (jsgf_parse_string+build, jsgf_parse_file on grammar FILES that import each other [main/sub/other.gram written per case: token sequences continue the imported file and may open a third; import of self, of the importer, of a missing or malformed file, twice], fsg_model_read_s3file, dict_init_s3file main/filler, config_parse_json, config_set_str, '
              'decoder_set_align_text, decoder_add_word, decoder_set_cmn, decoder_init_grammar_s3file, decoder_set_jsgf_string). Space A: every token '
              'sequence up to length 3 (thorough 4) over a 13-31 token alphabet per format (keywords, brackets, numbers incl. 2147483648/1e40/-1, a '
              '70000-byte token, a 0xff byte, comment openers) x {bare, after 1-2 valid prefixes} x {space-joined, newline-terminated, concatenated}; '
@@ -803,7 +805,7 @@ CHECKS = {
     'C20': dict(
         title='hash table is a map under any operation history',
         level='model_checking',
-        runs={'quick': _hash_runs(6), 'thorough': _hash_runs(6) + _hash_runs(8)},
+        runs={'quick': _hash_runs(6), 'thorough': _hash_runs(6) + _hash_runs(8)[:3]},
         budget_s={'quick': 120, 'thorough': 900},
         coverage=mc_cov,
         rule='explicit-state BFS to fixpoint over operation histories {enter,replace x value 1|2, delete} x key + empty() '
